@@ -2,7 +2,7 @@
 import json, os
 
 from . import extract
-from .rules import lock7, seq, mutex, ptr, lockword, qsbr, enc, exc, acc, cfgdiff, enum1, iterrules, prefix, point, find, slot, nodes, couple, qstate
+from .rules import lock7, seq, mutex, ptr, lockword, qsbr, enc, exc, acc, cfgdiff, enum1, iterrules, prefix, point, find, slot, nodes, couple, qstate, counters
 from . import olcrules
 
 VERIF = os.path.dirname(os.path.dirname(os.path.abspath(__file__)))
@@ -347,7 +347,8 @@ PROPERTIES['C14'] = {
 PROPERTIES['C16'] = {
     'level': 'other',
     'configs': two,
-    'rules': [R(lock7a), olc('LOCK-7'), olc('ROLE'), R(ptr.ptr2), R(cfgdiff.assert_range), R(cfgdiff.assert_optimistic), R(lockword.lw6)],
+    'rules': [R(lock7a), olc('LOCK-7'), olc('ROLE'), R(ptr.ptr2), R(cfgdiff.assert_range), R(cfgdiff.assert_optimistic), R(lockword.lw6), R(counters.assert3),
+              keep_keys(R(qsbr.q_barriers), lambda k: k.startswith('Q-5:order'), 'only the memory-order table: in the statistics-on builds the deallocation-statistics mutex adds happens-before edges on some schedules that the statistics-off builds do not have, so an access of the QSBR state word or the orphan lists that is weaker than the table demands is ordered in one configuration and racy in the other; the remaining parts of Q-5 are C04 / C05')],
     'technique': 'static analysis: configuration differencing (statement-signature alignment of every function across single-axis flips of the build configuration with an effect classifier), API-surface differencing, typestate dataflow for read-section overwrite',
     'multi_rules': [R(cfgdiff.run_matrix), R(simd_axis)],
     'exhaustive': lambda tier: tier == 'thorough',
@@ -357,7 +358,7 @@ PROPERTIES['C16'] = {
                    'PTR-2 (assertion-enabled configurations): the per-thread registry of live qsbr_ptr values is exact - every member function that changes the wrapped address unregisters the old value before and registers the new one after, on every path - so the three rejection assertions fire only when a wrapper is really alive (that they exist at all is C17, PTR-4: a missing assertion does not make a legal run abort): a stale registration makes the next legal quiescent state abort. LW-6 (assertion-enabled configurations): a read section clears its lock pointer on exactly the paths on which the lock-level call gave its read_lock_count unit back (check: on failure; try_read_unlock: always - conditions read off the lock code itself), so the unit is never given back twice. ASSERT-2 (assertion-enabled configurations): the copying node constructors of the OLC index - they build the larger / smaller replacement before the write guards are taken, from a node that is only read-locked - assert nothing about their source node (unvalidated optimistic reads: an assertion on them aborts a legal interleaving that the release build resolves by a failed upgrade and a restart). ASSERT-1 (assertion-enabled configurations): a debug-only counter compared with a narrower stored count cannot outgrow it (loop trip count capped by the node capacity <= 2^w - 1; a full I256 has 256 children and an 8-bit count). '
                    'LOCK-7b / ROLE: a read section is not used after it has been ended or handed to a callee that consumes it, and helpers receive the section their node argument was read under - in release builds a consumed section still carries its lock pointer and the slip goes unnoticed, in assertion-enabled builds the pointer is null and the next use crashes: behaviour would depend on the configuration. '
                    'LOCK-7a: in no function of the OLC code is a read section that may still be open overwritten by assignment. An overwritten open section loses its unit of the debug-build read_lock_count, which optimistic_lock::check_on_dealloc '
-                   'asserts to be zero when the node is freed - the one internal assertion that legal usage (scan, then remove) could trip.',
+                   'asserts to be zero when the node is freed - the one internal assertion that legal usage (scan, then remove) could trip. ASSERT-3 (assertion-enabled configurations) the integer assertions inside the copy loops that rebuild a node from its neighbour class (I16 from a shrinking I48: `i < 255`; I48 from a growing I16: `i == capacity`) cannot fail: complete exploration of the finite state space (block, integer locals, occupied source slots seen so far), memory unknown except that exactly 16 of the 256 index slots of the shrinking I48 are occupied (ACC-1: an I48 shrinks exactly at 17 children; init empties the slot of the removed child first). Q-5 (memory-order table only): every atomic access of the QSBR state word and the orphan lists has the order the table demands in every configuration - the statistics-on builds take a mutex around the deallocation statistics that the statistics-off builds do not have, so a weaker order is masked on some schedules in one configuration and a data race in the other.',
     'decides': 'optional features (statistics, debug accounting) never write core state and core control flow never depends on them; assertion conditions are pure; balance of the debug read-section accounting on every path (typestate); the three rejection assertions exist',
     'does_not_decide': 'the aarch64 (NEON) and portable variants (not compiled on this platform); that every assertion is implied by the documented preconditions (general program verification) - only the accounting assertions LOCK-7a / PTR-4 are tied to code paths',
     'trusted_base': ['clang 14 front end', 'usa extractor and rule engine', 'semantics table of the x86 intrinsics used (cmpeq_epi8/epi64, max_epu8, packs_epi32, permute4x64, movemask_epi8, testz): Intel intrinsics guide'],
@@ -425,7 +426,8 @@ PROPERTIES['C05'] = {
 PROPERTIES['C06'] = {
     'level': 'other',
     'configs': stats_axis,
-    'rules': [R(lambda cfg: qsbr.q_rotation(cfg, parts=('3',))), R(qsbr.q_cas), R(lambda cfg: qsbr.q_orphans(cfg, parts=('7', '8'))), R(qsbr.q_tail_link), R(qsbr.q_register_epoch), R(qsbr.q_tagging), R(qsbr.q_sink), R(qstate.qs1), R(qsbr.q_list_rmw), scoped(R(exc.exc1), _qsbr_roots, 'QSBR thread start / resume / deferred-deallocation request')],
+    'rules': [R(lambda cfg: qsbr.q_rotation(cfg, parts=('3',))), R(qsbr.q_cas), R(lambda cfg: qsbr.q_orphans(cfg, parts=('7', '8'))), R(qsbr.q_tail_link), R(qsbr.q_register_epoch), R(qsbr.q_tagging), R(qsbr.q_sink), R(qstate.qs1), R(qsbr.q_list_rmw), scoped(R(exc.exc1), _qsbr_roots, 'QSBR thread start / resume / deferred-deallocation request'),
+              keep_keys(R(exc.exc4), lambda k: 'qsbr' in k.lower(), 'only the window around a qsbr_per_thread object (a registered object without an owner is a thread that never quiesces); tree nodes are C08 / C10')],
     'technique': 'static analysis: linearity (exactly-one-sink) dataflow on request containers, CAS-loop shape rule (published value recomputed from the expected value on every retry), type-level non-copyability check',
     'explanation': 'Exactly-once as linearity of the request containers: Q-3 no request list is overwritten while it may hold requests, the new requests are consumed into the current list; '
                    'Q-6 every CAS on the packed state word publishes helper(expected) recomputed after each failed attempt (no lost thread-count update), register increments and unregister decrements the count, paused follows (un)registration, '
@@ -485,18 +487,24 @@ PROPERTIES['C08'] = {
     'assumptions': ['tree operations run with a single registered QSBR thread (C08 as stated): qsbr_per_thread::on_next_epoch_deallocate is treated as non-allocating when reached from a tree operation; it is analysed unpruned as an entry point of its own'],
 }
 
+def _with_stats(name):
+    return '-stats-' in name
+
+
 PROPERTIES['C10'] = {
     'level': 'other',
-    'configs': lambda tier: [B, D] if tier == 'quick' else [c for c in extract.all_configs() if '-stats-' in c],
-    'rules': [R(acc.acc1), R(acc.acc2), R(acc.acc4), R(acc.acc5), R(acc.acc6), R(acc.own1), R(exc.exc2), R(lambda cfg: nodes.mut1(cfg, parts=('count', 'reclaim', 'foreach'))), R(acc.acc7), R(olcrules.lock6b), R(slot.slot1),
-              R(lambda cfg: qsbr.q_rotation(cfg, parts=('3',))), R(lambda cfg: qsbr.q_orphans(cfg, parts=('7', '8'))), R(qsbr.q_tail_link), R(qsbr.q_sink), R(qsbr.q_list_rmw)],
+    # the counters exist in the statistics-on configurations only; "all of it is returned" holds for every build: DEL-1 runs
+    # with statistics compiled out as well (a free that slipped inside a statistics block vanishes there)
+    'configs': lambda tier: [B, D, extract.flip(B, 'nostats')] if tier == 'quick' else extract.all_configs(),
+    'rules': [dict(r_, configs=_with_stats) for r_ in [R(acc.acc1), R(acc.acc2), R(acc.acc4), R(acc.acc5), R(acc.acc6), R(acc.own1), R(exc.exc2), R(lambda cfg: nodes.mut1(cfg, parts=('count', 'reclaim', 'foreach'))), R(acc.acc7), R(olcrules.lock6b), R(slot.slot1),
+              R(lambda cfg: qsbr.q_rotation(cfg, parts=('3',))), R(lambda cfg: qsbr.q_orphans(cfg, parts=('7', '8'))), R(qsbr.q_tail_link), R(qsbr.q_sink), R(qsbr.q_list_rmw), R(acc.acc8)]] + [R(exc.del1)],
     'multi_rules': [R(lambda ctx, tier: simd_axis_sse(ctx, tier, fns=(slot.slot1,)))],
     'technique': 'static analysis: constant-chain and decision-expression rules on the size classes, counter who-may-write discipline, per-path create/account matching, loop-bound descriptors of subtree deletion, ownership linearity dataflow',
     'explanation': 'The local generators of "shape, statistics and memory accounting are functions of the key set", for db and olc_db, both key kinds: '
                    'ACC-1 the size-class constants form the chain 2-4 / 5-16 / 17-48 / 49-256, a node grows exactly when its count equals the capacity of ITS OWN class into the NEXT class, shrinks exactly at the minimum size of its own class into the PREVIOUS class, a two-child node collapses, splits create I4; '
                    'ACC-2 the growth / shrink counters are written only by account_growing_inode / account_shrinking_inode and only incremented, and along every non-restart path of every helper instantiation the nodes created-and-published equal the growth accounted for (class by class), a dissolved node is accounted as shrunk exactly once, key_prefix_splits moves only in the inserts; '
                    'ACC-4 clear() / destruction delete the whole subtree of a non-null root - every child slot of every node class (loop bounds: children_count for the dense classes, 48 resp. 256 slots for the indexed ones) - then reset root, memory use and the per-class counters; '
-                   'ACC-6 every decrement (inode count per class, leaf count, memory use) is the exact mirror image of its increment - same slot, same amount - and the slots of the five node classes are distinct; ACC-5 olc_db counters are updated by one atomic read-modify-write, never by a store computed from a load of the same counter; OWN-1 a node pointer released from its unique_ptr is published or re-owned on every path to every return (restart returns included), so nothing stays allocated and counted without being in the tree; EXC-2 allocation and accounting move together in factories and deleters; SLOT-1 an I48 really holds 48 children in the AVX2 and in the SSE4.2 build (the free-slot search finds the first null slot for every occupancy; a search that never sees some slots free makes the node overflow its array instead of growing at 48); the exactly-once rules of C06 (Q-3, Q-7, Q-8, Q-13, Q-15/16, Q-19) - memory retired by olc_db threads that have since left is what \"awaits deferred reclamation\", and it is all returned only if no orphaned request is dropped; ACC-7 the per-class template accessors use the slot of their own class (node_counts[T], growing / shrinking_inode_counts[T - 1]), getters and account_* alike; LOCK-6b the reclaiming deleters of olc_db hand QSBR the node they were given with the size of its class (sizeof of the node class, not of a pointer; the leaf size read before the hand-over) - the deferred-reclamation backlog is what makes "bytes held = reported use + awaiting reclamation" true; MUT-1 the per-class mutators keep children_count exact (add: + 1, remove: - 1, stored once on every path - the grow / shrink thresholds of ACC-1 are read from it), remove hands the removed leaf to reclamation exactly once (the slot named by its index parameter; I48 through its pointer helpers), I256::for_each_child - the teardown walk - calls its callback.',
+                   'ACC-6 every decrement (inode count per class, leaf count, memory use) is the exact mirror image of its increment - same slot, same amount - and the slots of the five node classes are distinct; ACC-5 olc_db counters are updated by one atomic read-modify-write, never by a store computed from a load of the same counter; OWN-1 a node pointer released from its unique_ptr is published or re-owned on every path to every return (restart returns included), so nothing stays allocated and counted without being in the tree; EXC-2 allocation and accounting move together in factories and deleters; SLOT-1 an I48 really holds 48 children in the AVX2 and in the SSE4.2 build (the free-slot search finds the first null slot for every occupancy; a search that never sees some slots free makes the node overflow its array instead of growing at 48); the exactly-once rules of C06 (Q-3, Q-7, Q-8, Q-13, Q-15/16, Q-19) - memory retired by olc_db threads that have since left is what \"awaits deferred reclamation\", and it is all returned only if no orphaned request is dropped; ACC-7 the per-class template accessors use the slot of their own class (node_counts[T], growing / shrinking_inode_counts[T - 1]), getters and account_* alike; LOCK-6b the reclaiming deleters of olc_db hand QSBR the node they were given with the size of its class (sizeof of the node class, not of a pointer; the leaf size read before the hand-over) - the deferred-reclamation backlog is what makes "bytes held = reported use + awaiting reclamation" true; MUT-1 the per-class mutators keep children_count exact (add: + 1, remove: - 1, stored once on every path - the grow / shrink thresholds of ACC-1 are read from it), remove hands the removed leaf to reclamation exactly once (the slot named by its index parameter; I48 through its pointer helpers), I256::for_each_child - the teardown walk - calls its callback. ACC-8 basic_leaf::get_size() - what the leaf deleters subtract - is the same linear function of the stored key and value sizes as compute_size() - what make_db_leaf_ptr allocates and adds - with every intermediate sum at a width that holds it (two 32-bit fields sum to 33 bits). DEL-1 each of the four node deleters hands the pointer it was given to free_aligned resp. on_next_epoch_deallocate exactly once on every path - checked in the statistics-off configurations as well (the other rules of this property need the counters and run where they exist).',
     'decides': 'grow / shrink / collapse thresholds and target classes; counter discipline; completeness of subtree deletion; no leak of released nodes; allocation <-> accounting pairing',
     'does_not_decide': 'history independence of the shape as a theorem over all operation histories (it decides the local rules that generate it)',
 }
